@@ -14,6 +14,11 @@
 import RenoVerif.Lemmas.ChainDot
 import Mathlib.Algebra.Module.LinearMap.Basic
 import Mathlib.Algebra.Order.Ring.Rat
+import Mathlib.LinearAlgebra.Matrix.Trace
+import Mathlib.LinearAlgebra.Matrix.Notation
+import Mathlib.Tactic.FinCases
+import Mathlib.Tactic.Ring
+import Mathlib.Tactic.FieldSimp
 
 namespace RenoVerif.Chain
 open Matrix
@@ -92,3 +97,41 @@ theorem evolveExactPinned_violates :
   simp [evolveExactPinned, repr]
 
 end RenoVerif.Phase
+
+namespace RenoVerif.Thermal
+open Matrix
+
+variable {n : Type} [Fintype n] [DecidableEq n] {K : Type} [CommRing K] [StarRing K]
+
+/-- **purification**: the expectation value the code computes on the purified state `A` (an `MpDm`: a matrix with a
+    physical and an auxiliary index), `⟨A, O A⟩ = Tr(Aᴴ O A)`, is `Tr(O ρ)` with `ρ = A Aᴴ` -/
+theorem purification_expectation (A O : Matrix n n K) : trace (Aᴴ * O * A) = trace (O * (A * Aᴴ)) := by
+  rw [Matrix.mul_assoc, Matrix.trace_mul_comm, Matrix.mul_assoc]
+
+/-- `m` steps with a Hermitian one-step propagator `U = e^{−τH}` applied to the maximally entangled state (the identity)
+    give `A = U^m`, hence `ρ = A Aᴴ = U^(2m)`: propagating the purification to β/2 yields the density operator of β -/
+theorem thermal_steps (U : Matrix n n K) (hU : Uᴴ = U) (m : ℕ) : (U ^ m) * (U ^ m)ᴴ = U ^ (2 * m) := by
+  rw [Matrix.conjTranspose_pow, hU, ← pow_add, two_mul]
+
+/-- normalising the purified state after every step (`normalize("mps_and_coeff")`) only rescales `ρ`: the ratio
+    `Tr(Oρ)/Tr(ρ)` reported as thermal average is unaffected -/
+theorem purification_scale (A O : Matrix n n K) (c : K) :
+    trace (O * ((c • A) * (c • A)ᴴ)) = (c * star c) * trace (O * (A * Aᴴ)) := by
+  simp only [Matrix.conjTranspose_smul, Matrix.smul_mul, Matrix.mul_smul, Matrix.trace_smul, smul_eq_mul]
+  ring
+
+/-- the two together: after `m` normalised steps the reported average of `O` is `Tr(O U^{2m}) / Tr(U^{2m})`, whatever the
+    (non-zero) normalisation constants were -/
+theorem thermal_average {F : Type} [Field F] [StarRing F] (U O : Matrix n n F) (hU : Uᴴ = U) (m : ℕ) (c : F)
+    (hc : c * star c ≠ 0) :
+    trace (O * ((c • U ^ m) * (c • U ^ m)ᴴ)) / trace ((c • U ^ m) * (c • U ^ m)ᴴ)
+      = trace (O * U ^ (2 * m)) / trace (U ^ (2 * m)) := by
+  have h1 := purification_scale (U ^ m) O c
+  have h2 := purification_scale (U ^ m) (1 : Matrix n n F) c
+  rw [Matrix.one_mul, Matrix.one_mul] at h2
+  rw [h1, h2, thermal_steps U hU m, mul_div_mul_left _ _ hc]
+
+example : (!![2, 0; 0, 3] : Matrix (Fin 2) (Fin 2) ℚ)ᴴ = !![2, 0; 0, 3] := by
+  ext i j; fin_cases i <;> fin_cases j <;> simp [Matrix.conjTranspose_apply]
+
+end RenoVerif.Thermal
